@@ -14,7 +14,8 @@ What runs on every `./check C20`:
    * `rt`  — every real object of the differential streams whose class is in the table: its `__dict__` abstracted
              to kinds, the spec taken from the *generated table*; the model predicts the attribute set and kinds
              of the restored object (this validates the translator against the running code);
-   * `jg`  — `JSONGrammar` state round trip;  `h5` — `HDF5Cache` re-attachment.
+   * `jg`  — `JSONGrammar` state round trip;  `h5` — `HDF5Cache` re-attachment (the original stores an entry
+             between `dumps` and `loads`, the copy stores one after: both must see the file's content).
 3. **Differential oracle** (c20_diff / c20_diff2): every class of the discipline and MDA factories that can be
    instantiated without external tools x grammar types x cache types x moments x serializers, scenarios,
    problems, functions, design spaces, grammars, caches, DOE libraries, statuses, statistics, directory creators.
